@@ -82,6 +82,8 @@ def run(chk):
             cplx = dt == 'complex'
             n = int(rng.choice([48, 64, 96]))
             x = zoo.signal(rng, n, cplx, kind=['noise', 'tones', 'arma'][rep % 3])
+            # (the unit of the record itself is arbitrary: millivolts, kilovolts)
+            x = x * [1e-4, 1e4, 1.0][rep % 3]
             # "any non-zero scalar": both ends of twelve decades first, then random moduli
             mod = [1e-6, 1e6][rep] if rep < 2 else 10 ** rng.uniform(-6, 6)
             c = mod * (np.exp(2j * np.pi * rng.rand()) if cplx else rng.choice([-1.0, 1.0]))
